@@ -24,6 +24,10 @@ Fch1(f) == IF f.asc THEN Fmin(f) ELSE Fmax(f)
 Fs(f) == [j \in 1..f.F |-> Fmin(f) + (j - 1) * FQ]
 Ts(f) == [i \in 1..f.T |-> (i - 1) * TQ]
 TsExt(f) == [i \in 1..f.T + 1 |-> (i - 1) * TQ]
+(* the time axis after it has been moved k steps later in place (what Cadence.add_signal does temporarily and what a user
+   may do with frame.ts): the extended axis is always the current axis plus one more step *)
+TsShift(f, k) == [i \in 1..f.T |-> (i - 1 + k) * TQ]
+TsExtShift(f, k) == [i \in 1..f.T + 1 |-> (i - 1 + k) * TQ]
 Fmid2(f) == Fmin(f) + Fmax(f)                              \* twice the mid frequency
 ObsLen(f) == f.T * TQ
 
@@ -36,13 +40,13 @@ Drift(f, j0, j1) == <<(j1 - j0) * FQ, f.T * TQ>>
 
 Queries(f) == (Fmin(f) - 2 * FQ)..(Fmax(f) + 2 * FQ)
 
-Init == /\ fr \in [F : FSet, T : TSet, asc : BOOLEAN, lo : LoSet, route : Routes]
+Init == /\ fr \in [F : FSet, T : TSet, asc : BOOLEAN, lo : LoSet, route : Routes, shift : {0, 3}]
         /\ phase = "cfg" /\ out = <<>>
 
 Compute ==
     /\ phase = "cfg"
     /\ out' = [fr |-> fr, fch1 |-> Fch1(fr), fmin |-> Fmin(fr), fmax |-> Fmax(fr), fs |-> Fs(fr), ts |-> Ts(fr),
-               tsExt |-> TsExt(fr), fmid2 |-> Fmid2(fr), obsLen |-> ObsLen(fr),
+               tsExt |-> TsExt(fr), tsMoved |-> TsShift(fr, fr.shift), tsExtMoved |-> TsExtShift(fr, fr.shift), fmid2 |-> Fmid2(fr), obsLen |-> ObsLen(fr),
                index |-> [g \in Queries(fr) |-> Index(fr, g)],
                drift |-> [p \in {<<0, fr.F - 1>>, <<fr.F - 1, 0>>, <<0, 0>>} |-> Drift(fr, p[1], p[2])]]
     /\ phase' = "done" /\ UNCHANGED fr
@@ -67,5 +71,7 @@ TwinAxesEqual == Fs(Twin(fr)) = Fs(fr) /\ Ts(Twin(fr)) = Ts(fr) /\ Fmid2(Twin(fr
                  /\ \A g \in Queries(fr) : Index(Twin(fr), g) = Index(fr, g)
 (* derived quantities come from the same grid *)
 DerivedFromGrid == /\ TsExt(fr)[fr.T + 1] = ObsLen(fr)
+                   /\ \A k \in {0, 3} : /\ SubSeq(TsExtShift(fr, k), 1, fr.T) = TsShift(fr, k)
+                                        /\ TsExtShift(fr, k)[fr.T + 1] = TsShift(fr, k)[fr.T] + TQ
                    /\ 2 * Fs(fr)[1] + (fr.F - 1) * FQ = Fmid2(fr)
 =============================================================================
